@@ -1,8 +1,10 @@
 """C07 Share placement is complete, respects read-only servers, maximizes spread.
 
 Decided: structural necessary conditions of happiness_upload.share_placement and
-its helpers (DESIGN.md section 5, C07).  The value-level optimality of the
-matching is C08 / undecided."""
+its helpers (DESIGN.md section 5, C07), including the structural necessary
+conditions of the Edmonds-Karp copy whose matching *is* the placement
+(_compute_maximum_graph, residual_network, augmenting_path_for, bfs).  The
+value-level optimality of the matching is undecided."""
 from sa.h import *
 
 EXPLANATION = (
@@ -22,10 +24,22 @@ EXPLANATION = (
     "the merge readonly+existing+new (in this override order), every empty/None value is replaced, phase 2/3 "
     "share and peer arguments are shares-used and shares-used-existing (ids from _extract_ids of the previous "
     "phase), every share index gets a key in _compute_maximum_graph; (5) spread: the set of writable candidate servers "
-    "of phases 2/3 loses servers only by subtracting the ids matched in earlier phases (no other removal). "
-    "Undecided: optimality of the matching (C08), PriorityQueue tie-breaking, set iteration order.")
+    "of phases 2/3 loses servers only by subtracting the ids matched in earlier phases (no other removal); "
+    "(6) the matching that becomes the placement (_compute_maximum_graph) is augmented skew-symmetrically: per edge "
+    "(u, v) of the augmenting path found in the residual graph, flow[u][v] += d and flow[v][u] -= d on every way "
+    "through the iteration, d = min residual capacity along that path (= 1), flow matrix with distinct zero rows "
+    "of width len(graph); (7) residual freshness: after any store into the flow table the pair (residual_graph, "
+    "residual_function) is recomputed by residual_network(graph, flow) before it is read again (loop test, path "
+    "search, delta, read-back), loop test and path search use that graph, every result is returned only after "
+    "the test failed (an empty dict only for an empty graph / share list), the read-back takes a share's server "
+    "from the residual graph's row; (8) helpers: augmenting_path_for searches 0 -> len(graph)-1 through the BFS "
+    "predecessors, residual_network reverses exactly the saturated edges (capacity 1, distinct rows), bfs enqueues "
+    "only WHITE vertices after colouring them and recording the predecessor. "
+    "Undecided: that the flow found is maximum once (6)-(8) hold (termination/optimality of Edmonds-Karp), "
+    "PriorityQueue tie-breaking, set iteration order.")
 TECHNIQUE = ("static analysis: CFG cycle/reaching-definition alias rule (R9), normal-form index-space agreement, "
-             "edge-fact dominance and set-difference-chain normal forms over share_placement")
+             "edge-fact dominance and set-difference-chain normal forms over share_placement, CFG x staleness "
+             "monitor and update-pair normal form for the placement's Edmonds-Karp copy")
 
 HU = "immutable.happiness_upload"
 UP = "immutable.upload"
@@ -737,15 +751,23 @@ def ek_freshness_rule(r, fn, what, net_param=None, empty_result_ok=None):
         r.require(nets <= {net_param}, fn, fn.loc(ek.rec[0].ast), "%s: the residual network is derived from %s, expected the "
                   "flow network `%s` the function was given" % (what, sorted(nets), net_param))
 
+    def infeasible(n, lab):
+        """the edge of a constant test (`while True`) that is never taken"""
+        return n.kind == "test" and isinstance(lab, tuple) and isinstance(n.ast, ast.Constant) \
+            and bool(n.ast.value) != (lab[0] == "T")
+
     def transfer(n, lab, nxt, st):
         if n.kind in ("entry", "exit", "raise"):
             return st
+        if infeasible(n, lab):
+            return None
         if ek.is_upd(n):
             return True
         if ek.is_rec(n) and lab != "exc":
             return False
         return st
-    visited, parent = explore(cfg, False, transfer)
+    # initial state "stale": the pair must have been computed before its first read, too
+    visited, parent = explore(cfg, True, transfer)
     r.count(len(visited))
     reads = [n for n in cfg.nodes if n.kind not in ("entry", "exit", "raise") and ({rg, rf} & loads_of(n))]
     if not reads:
@@ -756,8 +778,8 @@ def ek_freshness_rule(r, fn, what, net_param=None, empty_result_ok=None):
         if st and any(n is x for x in reads) and nid not in done:
             done.add(nid)
             w = witness(cfg, parent, (nid, st))
-            r.violation(fn, fn.loc(n.ast), "%s: stale residual network: %s is read after %s was updated and before "
-                        "residual_network(..) recomputed it (path: %s)" % (
+            r.violation(fn, fn.loc(n.ast), "%s: stale residual network: %s is read after %s was created/updated and before "
+                        "residual_network(..) (re)computed it (path: %s)" % (
                             what, "/".join(sorted({rg, rf} & loads_of(n))), ff, w.brief()), w)
     apf = "augmenting_path_for(%s)" % rg
     plain = Normaliser(Env(None, depth=0))
@@ -769,10 +791,6 @@ def ek_freshness_rule(r, fn, what, net_param=None, empty_result_ok=None):
             if v is not None:
                 return (f[0], norm_plain(v), None)
         return f
-
-    def infeasible(n, lab):
-        return n.kind == "test" and isinstance(lab, tuple) and isinstance(n.ast, ast.Constant) \
-            and bool(n.ast.value) != (lab[0] == "T")
 
     def has_path_edge(n, lab):
         f = fact1(n, lab)
@@ -887,8 +905,8 @@ def ek_helpers_rule(r, idx):
                   "the rows of %s are not distinct objects" % nm)
     apps = [(n, c) for n in ncfg.stmt_nodes() for c in node_calls(n) if call_tail(c) == "append"
             and isinstance(c.func.value, ast.Subscript) and norm_plain(c.func.value.value) == ng]
-    if len(apps) != 2:
-        raise AnchorVanished("residual_network: two edge insertions")
+    if not apps:
+        raise AnchorVanished("residual_network: edge insertions %s[..].append(..)" % ng)
     lps = [x for x in func_own_nodes(rn) if isinstance(x, ast.For)]
     outer = [l for l in lps if not enclosing_for(rn, l)]
     inner = [l for l in lps if enclosing_for(rn, l)]
@@ -915,6 +933,10 @@ def ek_helpers_rule(r, idx):
             for (t, w) in find_path_avoiding(ncfg, lambda x, _n=n: x is _n, gate_edge=fact_gate(None, want),
                                              kill=lambda x: x is hin):
                 r.violation(rn, rn.loc(t.ast), what, w)
+        kinds = {(norm_plain(c.func.value.slice), norm_plain(c.args[0])) for (_n, c) in apps if c.args}
+        r.require((v_, i_) in kinds, rn, rn.loc(inner[0]), "residual_network never adds the reverse edge %s -> %s of a saturated "
+                  "edge: an assignment made by an earlier augmenting path can never be re-routed" % (v_, i_))
+        r.require((i_, v_) in kinds, rn, rn.loc(inner[0]), "residual_network never keeps the unused edge %s -> %s" % (i_, v_))
         w = body_skips(ncfg, hin, lambda x: any(x is n for (n, _c) in apps))
         r.require(not w, rn, rn.loc(inner[0]), "an edge can vanish from the residual network")
         # capacities: +1 in the direction of the residual edge
@@ -1391,7 +1413,7 @@ def run(ctx: Context):
             sink_list = norm_src("[len(%s) - 1]" % G)
             is_none = isinstance(val, ast.Constant) and val.value is None
             vn = mnorm.norm(n, val)
-            m_ = re.match(r"^(\w+)\[%s\]\[0\]$" % re.escape(sv), vn)
+            m_ = re.match(r"^(.+)\[%s\]\[0\]$" % re.escape(sv), vn)
             if not is_none:
                 r.require(m_ is not None, mg, mg.loc(n.ast), "matched peer read as %s, expected residual_graph[%s][0]" % (vn, sv))
                 if m_:
@@ -1400,7 +1422,7 @@ def run(ctx: Context):
 
             def at_sink(op, l, rr, _eq=is_none):
                 return op == ("==" if _eq else "!=") and sink_list in (l, rr) and \
-                    re.match(r"^\w+\[%s\]$" % re.escape(sv), rr if l == sink_list else l) is not None
+                    re.match(r"^.+\[%s\]$" % re.escape(sv), rr if l == sink_list else l) is not None
             bad = find_path_avoiding(mcfg, lambda x, _n=n: x is _n, gate_edge=fact_gate(mnorm, at_sink),
                                      kill=lambda x: x is mhead)
             r.count(len(mcfg.nodes))
@@ -1837,7 +1859,7 @@ def run(ctx: Context):
     with ctx.rule("C07.7", "R2", "residual freshness of the placement matching: after a store into the flow table the pair "
                   "(residual_graph, residual_function) is recomputed from (graph, flow) before it is read again (loop "
                   "test, path search, delta, read-back); test and search use that graph; results only after the test "
-                  "failed; the read-back reads that residual graph", expected=5) as r:
+                  "failed; the read-back reads that residual graph", expected=4) as r:
         mg = idx.func(MAXG)
         G, SI = first_positional_params(mg)[:2]
 
@@ -1872,13 +1894,15 @@ def run(ctx: Context):
         want_row = "%s[%s]" % (ek.rg, sv)
         for (n, key, val) in mst:
             is_none = isinstance(val, ast.Constant) and val.value is None
+            # (when one recomputation reaches the read-back, FlowNorm shows it instead of the name)
+            rows = {want_row, mnorm.norm(n, parse_expr(want_row))}
             if not is_none:
                 vn = mnorm.norm(n, val)
-                r.require(vn == want_row + "[0]", mg, mg.loc(n.ast), "the server of share %s is read as %s; expected %s[0] - the "
-                          "reversed (saturated) edge of the residual graph" % (sv, vn, want_row))
+                r.require(vn in {x + "[0]" for x in rows}, mg, mg.loc(n.ast), "the server of share %s is read as %s; expected "
+                          "%s[0] - the reversed (saturated) edge of the residual graph" % (sv, vn, want_row))
 
-            def row_fact(op, l, rr, _eq=is_none):
-                return op == ("==" if _eq else "!=") and want_row in (l, rr)
+            def row_fact(op, l, rr, _eq=is_none, _rows=rows):
+                return op == ("==" if _eq else "!=") and (l in _rows or rr in _rows)
             bad = find_path_avoiding(mcfg, lambda x, _n=n: x is _n, gate_edge=fact_gate(mnorm, row_fact),
                                      kill=lambda x: x is mhead)
             r.count(len(mcfg.nodes))
